@@ -15,7 +15,7 @@ fn log2_fast(x: usize) -> usize {
 }
 /// the crate's current heuristic, recomputed only to label cases in the evidence
 pub fn predicted_rebuild(len: usize, k: usize, hint: Hint) -> bool {
-    let h = Hinted { inner: std::iter::empty::<()>(), remaining: k, hint }.size_hint();
+    let h = Hinted { inner: std::iter::empty::<(Key, Prio)>(), remaining: k, hint, done: false, poison: 0 }.size_hint();
     let est = match h {
         (_, Some(max)) => max,
         (min, None) if min != 0 => min,
@@ -332,6 +332,11 @@ impl<'c, Q: Queue> Interp<'c, Q> {
                 Carrier::JsonText => T::from_json(&q.to_json()?),
                 Carrier::JsonValue => T::from_value(q.to_value()?),
                 Carrier::SeqDe => T::from_pairs(q.iter().map(|(k, p)| ((k.id, k.tag), p.v)).collect()),
+                Carrier::SeqHint(d) => {
+                    let v: Vec<((u32, u32), i64)> = q.iter().map(|(k, p)| ((k.id, k.tag), p.v)).collect();
+                    let h = (v.len() as i64 + d as i64).max(0) as usize;
+                    T::from_pairs_hinted(v, Some(h))
+                }
                 Carrier::InPlace => {
                     let mut dst = T::from_vec((0..3u32).map(|i| (Key::new(4_000_000 + i, 0), Prio::new(3 - i as i64))).collect());
                     T::from_json_in_place(&mut dst, &q.to_json()?)?;
@@ -386,6 +391,7 @@ impl<'c, Q: Queue> Interp<'c, Q> {
                 Carrier::JsonText => T::from_json(&serde_json::to_string(raw).unwrap()),
                 Carrier::JsonValue => T::from_value(serde_json::to_value(raw).unwrap()),
                 Carrier::SeqDe => T::from_pairs(raw.to_vec()),
+                Carrier::SeqHint(d) => T::from_pairs_hinted(raw.to_vec(), Some((raw.len() as i64 + d as i64).max(0) as usize)),
                 Carrier::InPlace => {
                     let mut dst = T::from_vec((0..3u32).map(|i| (Key::new(4_000_000 + i, 0), Prio::new(3 - i as i64))).collect());
                     T::from_json_in_place(&mut dst, &serde_json::to_string(raw).unwrap())?;
